@@ -80,7 +80,7 @@ def main():
 
     flush()
     argv = [sys.argv[0], "-runs=%d" % runs, "-seed=%d" % (seed % (2 ** 31 - 1) + 1), "-max_len=%d" % max_len, "-artifact_prefix=%s/" % outdir,
-            "-timeout=60", "-rss_limit_mb=4096", "-len_control=50", "-verbosity=0", corpus]
+            "-timeout=60", "-rss_limit_mb=4096", "-len_control=50", "-verbosity=0", "-print_final_stats=1", corpus]
     atheris.Setup(argv, test_one_input)
     atheris.Fuzz()
 
